@@ -631,7 +631,7 @@ pub fn execute(plan: &Plan, ctx: &mut Ctx) {
             if matches!(base(&spec.kind), "expirer" | "n2v") {
                 parts.push(match (&clock, ins.first().and_then(|o| o.time())) {
                     (Err(_), _) => 9,
-                    (Ok(now), Some(t)) => 1 + ((now - t).cmp(&spec.param) as i64 + 1),
+                    (Ok(now), Some(t)) => 1 + ((*now as i128 - t as i128).cmp(&(spec.param as i128)) as i64 + 1),
                     _ => 0,
                 });
             }
